@@ -513,6 +513,11 @@ func (c *Ctx) RouterDoc(o RouterOpts) *Doc {
 	for _, tp := range c.Templates(o.MaxN, o.MaxDepth) {
 		pi := &PathItem{}
 		d.Paths[tp.String()] = pi
+		// (an upload host of its own, say: it does not move the path item under another base path)
+		if rapid.IntRange(0, 7).Draw(t, "path_item_servers") == 0 {
+			pi.Servers = []*Server{{URL: rapid.SampledFrom([]string{"https://uploads.example.com/v1", "https://files.example.com", "/files/v2"}).Draw(t, "path_item_server_url")}}
+			c.Tag("path-item:own-servers")
+		}
 		nm := rapid.IntRange(1, len(o.Methods)).Draw(t, "nmethods")
 		ms := rapid.SliceOfNDistinct(rapid.SampledFrom(o.Methods), nm, nm, rapid.ID[string]).Draw(t, "methods")
 		var ps []*Parameter
